@@ -446,4 +446,32 @@ def Net.wf (net : Net) : Bool :=
   && net.caps.length = net.ws.length
   && net.entry < net.caps.length
 
+/-! ## pipe-backed queues: the side condition under which `stop` cannot block on a full pipe
+
+For every bounded channel: a reader (with that channel as its only input, or an `all` node); one node that
+writes to it (data and forwarded sentinel); and the main thread puts its own sentinel on it only after having
+joined that writer.  Then a sentinel can never overtake data still to be written, so the reader cannot leave
+while the writer still has something to write.  Multi-worker servlets writing to a pipe (F19), switch members
+sharing a pipe-backed output queue, and the pinned `stop` orders (F12, F24) violate it. -/
+
+def writes (nd : NodeDesc) (c : Nat) : Bool := nd.plans.any (fun plan => plan.contains c) || nd.souts.contains c
+
+def Net.safe (net : Net) : Bool :=
+  (List.range net.caps.length).all fun c =>
+    match capOf net c with
+    | none => true
+    | some K =>
+      decide (1 ≤ K)
+      && (List.range net.nodes.length).any (fun r => match net.nodes[r]? with
+            | some nd => nd.ins.contains c && (nd.ins == [c] || nd.all)
+            | none => false)
+      && (List.range net.nodes.length).all (fun m => (List.range net.nodes.length).all (fun m' =>
+            m == m' || match net.nodes[m]?, net.nodes[m']? with
+              | some md, some md' => !(writes md c && writes md' c)
+              | _, _ => true))
+      && (List.range net.nodes.length).all (fun m => match net.nodes[m]? with
+            | some md => !writes md c || (List.range net.script.length).all (fun p =>
+                net.script[p]? != some (.put c) || (net.script.take p).contains (.join m))
+            | none => true)
+
 end Lifecycle
